@@ -10,6 +10,23 @@ COMMON_ASSUMPTIONS = [
 ]
 
 PROPS = {
+    "C09": {
+        "engines": [{"name": "dbhist"}],
+        "level": "exploration",
+        "technique": "seeded edit histories (append/remove/queries/append-list/encode-decode restart) on the real SignatureDatabase against an ordered-entry reference model and an independent EFI_SIGNATURE_LIST reader, swarm-selected universe per run",
+        "design_ref": "DESIGN.md section 3 (C09)",
+        "level_text": ("The listed defects need particular sequences, not particular inputs; the engine samples histories of 1-40 operations over a deliberately small universe "
+                       "(5 signature types incl. valid-but-undecodable and unknown, 3 owners, 14 data values incl. wrong-size hashes and DER/PEM certificates of equal and different "
+                       "length) so that duplicates, removals from the middle and emptied lists are frequent, and judges every step against the abstract entry sequence; "
+                       "encode->decode is the restart. Exploration: histories are sampled."),
+        "level_note": ("Trusted: the abstract model (ordered entries), refesl. The position of an appended entry, which of two equal-header lists receives it, removal/query by PEM form and "
+                       "Exists() across split lists are accepted either way because the statement does not fix them. A fresh valid append that fails without changing anything is counted, not flagged."),
+        "rule": ("Per run a swarm-selected subset of types/owners/operation kinds; start from empty, a repository fixture stream or a generated stream; 1-40 operations. "
+                 "Non-trivial: at least two successful mutations and a non-empty view at some step. Distinct = distinct event-log hash; model states = distinct structural snapshots of the database."),
+        "exhaustive": lambda tier: False,
+        "components": {"real": REAL, "stub": "none besides the reference model: the property has no I/O; restart = Bytes() -> ReadSignatureDatabase"},
+        "assumptions": COMMON_ASSUMPTIONS,
+    },
     "C12": {
         "engines": [{"name": "varstore"}],
         "level": "exploration",
@@ -93,7 +110,6 @@ NOT_APPLICABLE = {
     "C06": "claimed in DESIGN.md (engine varsign); check not built yet",
     "C07": "encode/decode inverse is a pure codec property",
     "C08": "accept/reject of a byte string by the decoder is pure; the decoder reads its io.Reader once, front to back, so EOF at instant k is exactly input of length k and a fault schedule degenerates to input mutation",
-    "C09": "claimed in DESIGN.md (engine dbhist); check not built yet",
     "C10": "descriptor/WIN_CERTIFICATE round-trip and consumed-length accounting are pure codec properties",
     "C13": "for every byte string ... never crash is input-space robustness (fuzzing); dressing mutation in fault vocabulary would not change what is decided",
     "C14": "as C13, and its second half is a static inventory of termination call sites (program analysis)",
